@@ -186,7 +186,7 @@ theorem sinv_dead {s : Sched} (h : SInv s) (g : List Nat) (c' : Conn) (hinv : In
   · intro r hr; cases hr
   · exact List.nodup_nil
   · show c'.queue.length + 0 ≤ chanCap
-    rw [hq]; simp [chanCap]
+    rw [hq]; exact Nat.zero_le _
   · rintro ⟨r, hr, _⟩
     have : r ∈ c'.sending := hr
     rw [hs] at this; cases this
@@ -316,7 +316,7 @@ theorem sinv_other {s : Sched} (h : SInv s) (e : Ev)
 theorem SInv.init : SInv Sched.init := by
   refine ⟨Inv.init, ?_, List.nodup_nil, ?_, ?_, rfl, ?_, fun _ => rfl⟩
   · intro r hr; cases hr
-  · simp [Sched.init, Conn.init, chanCap]
+  · exact Nat.zero_le _
   · rintro ⟨r, hr, _⟩; cases hr
   · intro p hp; cases hp
 
